@@ -253,8 +253,12 @@ struct TopoMachine : Machine {
       unsigned long fl = 0;
       if (g.chance(1, 3)) fl |= HWLOC_TOPOLOGY_FLAG_INCLUDE_DISALLOWED; if (g.chance(1, 6)) fl |= HWLOC_TOPOLOGY_FLAG_THISSYSTEM_ALLOWED_RESOURCES; if (g.chance(1, 8)) fl |= HWLOC_TOPOLOGY_FLAG_IMPORT_SUPPORT;
       if (g.chance(1, 6)) fl |= HWLOC_TOPOLOGY_FLAG_NO_DISTANCES; if (g.chance(1, 6)) fl |= HWLOC_TOPOLOGY_FLAG_NO_MEMATTRS; if (g.chance(1, 6)) fl |= HWLOC_TOPOLOGY_FLAG_NO_CPUKINDS;
+      size_t si = (size_t)g.below(nsnap ? nsnap : 1);
       int nrem = 0; if (faults) { int c = (int)g.below(4); nrem = c == 0 ? 0 : c <= 2 ? (int)g.range(1, 3) : (int)g.range(4, 40); }
-      o.set("snap", (int64_t)g.below(nsnap ? nsnap : 1)).set("comp", (int64_t)g.below(4)).set("env", g.chance(1, 3) ? (int64_t)g.below(3) + 1 : 0).set("nrem", nrem).setu("rs", g.next()).sets("filt", f).setu("flags", fl);
+      // a CPUID dump is a flat directory of pu<N> files + a summary; hwloc rejects it as soon as any file but the last pu<N> is missing (and then
+      // runs CPUID on the host): half of the removal sets drawn for a dump are dropped so that the intact dumps get their share of (c)(d)(e)
+      if (nrem && !strcmp(snapshot_kind(si), "x86") && g.chance(1, 2)) nrem = 0;
+      o.set("snap", (int64_t)si).set("comp", (int64_t)g.below(4)).set("env", g.chance(1, 3) ? (int64_t)g.below(3) + 1 : 0).set("nrem", nrem).setu("rs", g.next()).sets("filt", "f" + f).setu("flags", fl);
     };
     if (prop == "C18" && nsnap) {
       p.seth("src", "synthetic pack:1 core:2 pu:2");   // the world needs a replica r0; the evaluations are the snapshot loads
@@ -267,10 +271,11 @@ struct TopoMachine : Machine {
         p.ops.push_back(o);
       }
       if (tier == "thorough") {   // the enumerated part of the fault space: chunks drawn by the seed, coverage reported by distinct sets
-        int ne = (int)ops.range(1, 3);
-        for (int s = 0; s < ne; s++) {
-          Op o("snap_enum"); snap_args(o, ops, false); bool pair = ops.chance(4, 5);
-          o.sets("which", pair ? "pair" : "single").setu("from", ops.next() >> 1).set("count", pair ? 120 : 40);
+        for (int s = 0; s < 2; s++) {   // a chunk of pairs in half of the runs, a chunk of singles in an eighth
+          bool pair = s == 0; if (!ops.chance(1, pair ? 2 : 8)) continue;
+          Op o("snap_enum"); snap_args(o, ops, false);
+          for (size_t k = 0; k < o.kv.size();) { if (o.kv[k].first == "snap" || o.kv[k].first == "nrem") o.kv.erase(o.kv.begin() + (long)k); else k++; }   // the element is chosen by `from`
+          o.sets("which", pair ? "pair" : "single").setu("from", ops.next() >> 1).set("count", pair ? 250 : 40);
           p.ops.push_back(o);
         }
       }
